@@ -215,6 +215,7 @@ func checkC03(c *Ctx) {
 		"how an entry is classified on a real clock, nor FailedUpdateTTL durations."
 	r.Rule("R03.1", "every lone-call path's outcome is allowed by the documented table in every input cell consistent with the path's facts", 2)
 	r.Rule("R03.2", "every documented cell is reachable (has at least one feasible path)", 2)
+	r.Rule("R03.3", "entry state as seen by the frontend: the in-module backends classify fresh / absent / expired (with the value) by E vs now", 3)
 	r.NotDecided = []string{"classification of an entry on a real clock", "backend-error cells (property is silent; C02 applies)", "concurrent calls (C01/C02/C05)"}
 	for _, sib := range siblings {
 		fo := c.failover(sib)
@@ -224,6 +225,13 @@ func checkC03(c *Ctx) {
 		}
 		c.c03Sibling(fo)
 	}
+	// R03.3: the entry state reaches the frontend as documented — the in-module backends report fresh / absent / expired-with-
+	// value exactly by E vs now (an expired entry must not look absent: its value is the stale fallback)
+	c.borrow("C07", func() {
+		for _, b := range backends {
+			c.c07Read(b)
+		}
+	}, func(o *coreObl) (string, bool) { return "R03.3", o.Rule == "R07.2" })
 }
 
 func (c *Ctx) c03Sibling(fo *FO) {
@@ -255,8 +263,9 @@ func (c *Ctx) c03Sibling(fo *FO) {
 				readEv = ev
 			}
 		}
-		if readEv == nil || len(readEv.Results) != 2 {
-			r.Unknown("R03.1", cons, "lone path without a backend read at "+c.Pos(p.RetPos))
+		noRead := readEv == nil
+		if !noRead && len(readEv.Results) != 2 {
+			r.Unknown("R03.1", cons, "backend read with unexpected results at "+c.Pos(p.RetPos))
 			return
 		}
 		if len(reads) > 1 {
@@ -264,51 +273,62 @@ func (c *Ctx) c03Sibling(fo *FO) {
 			r.Bad("R03.1", cons, "double-read", c.Pos(reads[1].Pos), d, t)
 			continue
 		}
-		rerr := readEv.Results[1]
+		var rerr *pw.Val
+		if !noRead {
+			rerr = readEv.Results[1]
+		}
 		// entry classes consistent with the facts
 		var entries []string
-		switch nilTri(p, rerr) {
-		case triTrue:
-			entries = []string{"fresh"}
-		case triUnknown:
-			d, t := c.pathDetail(fo, p, "path never tests the backend read error")
-			r.Bad("R03.1", cons, "unchecked-read", c.Pos(readEv.Pos), d, t)
-			continue
+		if noRead {
+			// the path decides without looking at the backend: it must be right whatever the entry state is
+			entries = []string{"fresh", "absent", "stale-ok", "too-stale"}
+		}
+		switch {
+		case noRead:
 		default:
-			// As / Is facts on this error
-			as, is := triUnknown, triUnknown
-			var asTarget *pw.Val
-			for _, ev := range p.Events {
-				if ev.Kind != pw.EvCall || ev.Callee == nil || len(ev.Args) == 0 || ev.Args[0] != rerr {
-					continue
-				}
-				switch pw.FuncName(ev.Callee) {
-				case "errors.As":
-					if t, known := p.Truth(ev.Results[0]); known {
-						as = map[bool]tri{true: triTrue, false: triFalse}[t]
+			switch nilTri(p, rerr) {
+			case triTrue:
+				entries = []string{"fresh"}
+			case triUnknown:
+				d, t := c.pathDetail(fo, p, "path never tests the backend read error")
+				r.Bad("R03.1", cons, "unchecked-read", c.Pos(readEv.Pos), d, t)
+				continue
+			default:
+				// As / Is facts on this error
+				as, is := triUnknown, triUnknown
+				var asTarget *pw.Val
+				for _, ev := range p.Events {
+					if ev.Kind != pw.EvCall || ev.Callee == nil || len(ev.Args) == 0 || ev.Args[0] != rerr {
+						continue
 					}
-					_ = asTarget
-				case "errors.Is":
-					if len(ev.Args) > 1 && ev.Args[1].Obj != nil && ev.Args[1].Obj.Name() == "ErrNotFound" {
+					switch pw.FuncName(ev.Callee) {
+					case "errors.As":
 						if t, known := p.Truth(ev.Results[0]); known {
-							is = map[bool]tri{true: triTrue, false: triFalse}[t]
+							as = map[bool]tri{true: triTrue, false: triFalse}[t]
+						}
+						_ = asTarget
+					case "errors.Is":
+						if len(ev.Args) > 1 && ev.Args[1].Obj != nil && ev.Args[1].Obj.Name() == "ErrNotFound" {
+							if t, known := p.Truth(ev.Results[0]); known {
+								is = map[bool]tri{true: triTrue, false: triFalse}[t]
+							}
 						}
 					}
 				}
-			}
-			switch {
-			case as == triTrue:
-				entries = fo.staleClasses(p, rerr, zero)
-			case as == triFalse && is == triTrue:
-				entries = []string{"absent"}
-			case as == triFalse && is == triFalse:
-				entries = nil // backend error: property silent
-			case as == triFalse:
-				entries = []string{"absent"} // the code does not distinguish absent from foreign errors on this path
-			default:
-				d, t := c.pathDetail(fo, p, "path never asks whether the read error carries an expired item")
-				r.Bad("R03.1", cons, "unclassified-read-error", c.Pos(readEv.Pos), d, t)
-				continue
+				switch {
+				case as == triTrue:
+					entries = fo.staleClasses(p, rerr, zero)
+				case as == triFalse && is == triTrue:
+					entries = []string{"absent"}
+				case as == triFalse && is == triFalse:
+					entries = nil // backend error: property silent
+				case as == triFalse:
+					entries = []string{"absent"} // the code does not distinguish absent from foreign errors on this path
+				default:
+					d, t := c.pathDetail(fo, p, "path never asks whether the read error carries an expired item")
+					r.Bad("R03.1", cons, "unclassified-read-error", c.Pos(readEv.Pos), d, t)
+					continue
+				}
 			}
 		}
 		if len(entries) == 0 {
